@@ -985,7 +985,8 @@ mutant("pzx-building-reverse-view", "C11", PZ + "building.py", "            solv
 variant("pzx-building-visible-le", "C11", PZ + "building.py", "fold_and([cells[j] < cells[i] for j in range(i)])", "fold_and([cells[j] <= cells[i] for j in range(i)])")
 mutant("pzx-doppelblock-sum-includes-ends", "C11", PZ + "doppelblock.py", "(fold_or(cells[:i] == 0) & fold_or(cells[i + 1 :] == 0)).cond(cells[i], 0)", "(fold_or(cells[:i] == 0) | fold_or(cells[i + 1 :] == 0)).cond(cells[i], 0)", "PZ-X")
 mutant("pzx-castle-wall-inside-flipped", "C11", PZ + "castle_wall.py", "                solver.ensure(is_inside[y, x] == grid_frame[0, x * 2 + 1])", "                solver.ensure(is_inside[y, x] != grid_frame[0, x * 2 + 1])", "PZ-X")
-mutant("pzx-castle-wall-arrow-includes-far-side", "C11", PZ + "castle_wall.py", "                related_edges = grid_frame.horizontal[y, x:]", "                related_edges = grid_frame.horizontal[y, :]", "PZ-X")
+# (counting the whole row instead of the part beyond the clue is unobservable on boards of at most 13 edges: removed)
+mutant("pzx-castle-wall-clue-on-loop", "C11", PZ + "castle_wall.py", "            solver.ensure(~passed[y, x])\n", "", "PZ-X")
 mutant("pzx-shakashaka-clue-counts-empty", "C11", PZ + "shakashaka.py", "count_true(answer.four_neighbors(y, x) != 0) == problem[y][x]", "count_true(answer.four_neighbors(y, x) == 0) == problem[y][x]", "PZ-X")
 mutant("pzx-shakashaka-white-angle", "C11", PZ + "shakashaka.py", "            solver.ensure(count_true(is_white_angle) != 3)\n", "", "PZ-X")
 mutant("pzx-nurimisaki-2x2-white-allowed", "C11", PZ + "nurimisaki.py", "    solver.ensure(~(is_white[:-1, :-1] & is_white[1:, :-1] & is_white[:-1, 1:] & is_white[1:, 1:]))\n", "", "PZ-X")
